@@ -334,10 +334,7 @@ class Sym:
             env[dotted(target)] = value
         elif isinstance(target, (ast.Tuple, ast.List)):
             for i, e in enumerate(target.elts):
-                if isinstance(value, tuple) and value and value[0] == "tuple" and i < len(value[1]):
-                    self._bind(e, value[1][i], env)
-                else:
-                    self._bind(e, ("item", value, i), env)
+                self._bind(e, item_of(value, i), env)
 
     # ------------------------------------------------------------------ expressions
     def _binop(self, op, a, b):
@@ -567,6 +564,15 @@ class Sym:
         return v
 
 
+def item_of(value, i):
+    """element i of a canonical value: tuples are indexed, conditionals distribute"""
+    if isinstance(value, tuple) and value and value[0] == "tuple" and i < len(value[1]):
+        return value[1][i]
+    if isinstance(value, tuple) and value and value[0] == "phi":
+        return mkphi(value[1], item_of(value[2], i), item_of(value[3], i))
+    return ("item", value, i)
+
+
 def mkphi(test, a, b):
     if a == b:
         return a
@@ -681,6 +687,14 @@ def show(x, depth=0):
         return "%s.%s" % (show(x[1]), x[2])
     if tag == "method":
         return "%s.%s(%s)" % (show(x[2]), x[1], ", ".join(show(a) for a in x[3]))
+    if tag == "cmp":
+        return "%s %s %s" % (show(x[2]), x[1], show(x[3]))
+    if tag == "not":
+        return "not (%s)" % show(x[1])
+    if tag in ("and", "or"):
+        return "(" + (" %s " % tag).join(show(y) for y in x[1:]) + ")"
+    if tag == "item":
+        return "%s[%s]" % (show(x[1]), x[2] if not isinstance(x[2], tuple) else show(x[2]))
     if tag in ("call", "new"):
         return "%s(%s)" % (x[1], ", ".join([show(a) for a in x[2]] + ["%s=%s" % (k, show(v)) for k, v in x[3]]))
     return "%s(%s)" % (tag, ", ".join(show(y) for y in x[1:]))
